@@ -23,6 +23,7 @@ MUTL = [('product-swapped', RA, "list(itertools.product(first_dimension, second_
 
 def index_units(exclude=()):
     units = [Unit('ra-index', RI.registry(), mutants=MUT + MUTL)]
+    units.append(Unit('ra-starts', RI.registry_starts(), mutants=[('starts-not-shifted', RA, "        return np.append([0], np.cumsum(self.lengths)[:-1])", "        return np.cumsum(self.lengths)")]))
     for v in itertools.product((False, True), repeat=3):
         name = 'ra-slice[%s]' % ','.join(k for k, isnone in zip(('start', 'stop', 'step'), v) if not isnone)
         units.append(Unit(name, RI.registry_slice(*v), mutants=(MUTS if v == (False, False, False) else ())))
@@ -47,7 +48,7 @@ def run(tier, seed, update_lock=False):
     R.report_known('ra.py')
     resolve_failures(R, 'ra.py', lambda f: None)
     R.clauses = [{'clause': 'two-dimensional slices a[rows, lo:hi:step] (positive step; each None-ness variant of the slice): _get_iis_from_slices returns, for the p-th selected row, exactly the positions range(*slice(lo,hi,step).indices(lengths[rows[p]])) of that row - new_lengths[p] is their number, block p of the column indices lists them in order, the row index over block p is rows[p]; `lengths` is unchanged. _get_iis_from_list is the row-major cartesian product', 'status': 'proved (SMT on the real helpers; loop invariant + two induction lemmas about the block offsets)'},
-                 {'clause': 'paired (row, column) indices: _convert_from_2d / _handle_negative_indices give flat[k] = starts[r\'] + c\' inside row r\' (never a neighbouring row), raise IndexError exactly when an element lies outside its row, and leave the caller\'s index arrays unchanged; _slice_to_list visits the rows Python slicing visits (bounds in [-n, n], positive step)', 'status': 'proved (SMT on the real helpers, symbolic lengths)'},
+                 {'clause': 'paired (row, column) indices: _convert_from_2d / _handle_negative_indices give flat[k] = starts[r\'] + c\' inside row r\' (never a neighbouring row), raise IndexError exactly when an element lies outside its row, and leave the caller\'s index arrays unchanged; _slice_to_list visits the rows Python slicing visits (bounds in [-n, n], positive step)', 'status': 'proved (SMT on the real helpers, symbolic lengths); RaggedArray.starts = prefix sums of the lengths (induction lemma), which is the helpers\' precondition'},
                  {'clause': 'every read in the index grammar equals the read of the list of rows; element access outside a row raises IndexError', 'status': 'bounded (exhaustive small scope); listed findings excluded by witness class'},
                  {'clause': 'index-arithmetic helpers (partition_list / partition_indices) ', 'status': 'proved under C10'}]
     R.assumptions += ['RaggedArray keeps two NumPy representations whose aliasing the executor does not model: class dispatch and constructor are bounded stand-ins',
